@@ -14,7 +14,9 @@ from .values import (
 
 
 class LoopSpec:
-    def __init__(self, inv, modifies=(), allocates=False, variant=None):
+    def __init__(self, inv, modifies=(), allocates=False, variant=None, ghost_init=None, ghost_update=None):
+        self.ghost_init = ghost_init  # fn(ctx) -> {name: term}: ghost state at loop entry
+        self.ghost_update = ghost_update  # fn(ctx_iteration_start, ctx_iteration_end) -> {name: term}
         self.inv = inv  # fn(ctx) -> [(name, term)]
         self.modifies = list(modifies)
         self.allocates = allocates
@@ -34,8 +36,9 @@ class Contract:
     def __init__(
         self, key, src=None, params=None, defaults=None, cases=(), requires=None, ensures=(),
         canaries=(), loops=None, modifies=(), allocates=False, result=None, inline=False,
-        custom=None, is_property=False, label="proved", doc="", witness=None,
+        custom=None, is_property=False, label="proved", doc="", witness=None, local_kinds=None,
     ):
+        self.local_kinds = local_kinds or {}
         if witness is None:
             from vf.witness import generic_witness as witness
         self.witness = witness  # fn(model, entry_state, args) -> JSON-able concrete input
@@ -152,7 +155,7 @@ class FunctionReport:
         self.entries = {}
 
 
-def verify(contract, registry, imports=None, timeout_ms=None, only=None):
+def verify(contract, registry, imports=None, timeout_ms=None, only=None, parallel=1):
     """Generate and discharge every obligation of one function under contract."""
     rep = FunctionReport(contract.key)
     t0 = time.time()
@@ -205,6 +208,8 @@ def verify(contract, registry, imports=None, timeout_ms=None, only=None):
                         continue
                     ex.oblige(st1, f"post:{nm}", t, info={"trace": list(st1.trace)})
                 for nm, fn in contract.canaries:
+                    if canary_hits[nm]:
+                        continue
                     t = fn(ctx)
                     if t is None:
                         continue
@@ -234,8 +239,54 @@ def verify(contract, registry, imports=None, timeout_ms=None, only=None):
     for nm, hit in canary_hits.items():
         if not hit and not rep.undecided:
             rep.guard_failures.append(f"canary {nm} was not refuted: encoder or contract is unsound/vacuous")
-    # discharge, merging syntactically identical goals under identical names
-    for ob in rep.obligations:
-        discharge(ob, timeout_ms=timeout_ms)
+    rep.gen_s = time.time() - t0
+    _discharge_all(rep, contract, timeout_ms, parallel)
     rep.wall_s = time.time() - t0
     return rep
+
+
+_G = {}
+
+
+def _one(i):
+    ob = _G["obs"][i]
+    contract, entries = _G["contract"], _G["entries"]
+    discharge(ob, timeout_ms=_G["timeout_ms"])
+    d = {"i": i, "result": ob.result, "backend": ob.backend, "time_s": ob.time_s, "reason": str(ob.reason)}
+    if ob.result == "sat":
+        d["scalars"] = _scalars(ob.model)
+        if contract.witness is not None and ob.info.get("case") in entries:
+            try:
+                old, args = entries[ob.info["case"]]
+                d["witness"] = contract.witness(ob.model, old, args)
+            except Exception as e:  # best effort
+                d["witness_error"] = repr(e)
+    return d
+
+
+def _discharge_all(rep, contract, timeout_ms, parallel):
+    obs = rep.obligations
+    _G.update(obs=obs, contract=contract, entries=rep.entries, timeout_ms=timeout_ms)
+    if parallel and parallel > 1 and len(obs) > 12:
+        import multiprocessing as mp
+
+        with mp.get_context("fork").Pool(parallel) as pool:
+            outs = pool.map(_one, range(len(obs)), chunksize=1)
+    else:
+        outs = [_one(i) for i in range(len(obs))]
+    for d in outs:
+        ob = obs[d["i"]]
+        ob.result, ob.backend, ob.time_s, ob.reason = d["result"], d["backend"], d["time_s"], d["reason"]
+        ob.info["scalars"] = d.get("scalars")
+        ob.info["witness"] = d.get("witness")
+        ob.info["witness_error"] = d.get("witness_error")
+
+
+def _scalars(model):
+    out = []
+    for d in model.decls():
+        if d.arity() == 0:
+            v = model[d]
+            if z3.is_int_value(v) or z3.is_rational_value(v) or z3.is_true(v) or z3.is_false(v) or z3.is_algebraic_value(v):
+                out.append(f"{d.name()}={v}")
+    return ", ".join(sorted(out))[:2000]
